@@ -5,7 +5,7 @@ import wire
 from wire import mk_fmt, cells
 from props.common import guarded, canon_cells_list, reply_fmt_list, PALETTE
 from props.widthenv import (ALPHA3, wc, env_fields, text_of, cut_layouts, self_check, realize, shared_variants,
-                            shared_case_fields, pool_size, pool_object, safe_oracle, safe_impl)
+                            shared_case_fields, pool_size, pool_object, safe_oracle, safe_impl, limit_memory, BIG, HUGE, long_text)
 from curtsies.formatstring import Chunk, fmtstr
 
 PROP = "C11"
@@ -19,6 +19,8 @@ RULE = ("exhaustive: every string of length <=6 (thorough: <=7) over {narrow 'a'
         "PRE-OBSERVED sources: every string <=4 x 2-cut layouts x columns 2..4 (and shared-identity values) with the source "
         "rendered / hashed / compared BEFORE wrapping; on these, on the shared-identity/API-built/interleaved cases and on every string <=4 each returned line is observed through str(), == and "
         "hash() against an equal freshly built value (pre-observed cases also parse str(line) back); "
+        "LARGE column counts 255, 256, 257, 258, 300, 1000 and 65537 on long narrow/wide/combining/mixed texts a little "
+        "narrower than, exactly as wide as and 1-3 lines wider than the limit; "
         "INTERLEAVED consumption of the lazy generator: the same FmtStr at two column widths consumed in lock-step, and a "
         "generator suspended after 1..2 next() calls while another over the same f / f+tail / f*2 (sharing its first Chunk "
         "object) is fully consumed, then resumed - every produced line list judged and tied; "
@@ -86,6 +88,26 @@ def mk_cases(ctx):
             for spec in shared_variants([(s, dict(PALETTE[1]))])[:4]:
                 pre.append(dict(op="wasplit", columns=3, pre=["str", "eq"], **shared_case_fields(spec)))
     ctx.exhaustive.append("C11: %d cases whose SOURCE was rendered/hashed/compared before wrapping" % len(pre))
+    # LARGE column counts (every columns >= 2): texts a little narrower than, exactly as wide as, and 1-3 lines wider than
+    # the limit, in long runs of narrow / wide / combining / mixed characters, one run and cut at / next to a line boundary
+    big = []
+    for columns in BIG:
+        for kind in ("narrow", "wide", "comb", "mixed"):
+            widths = [columns - 3, columns, columns + 1, 2 * columns + 5] + ([3 * columns + 2] if ctx.thorough or kind == "narrow" else [])
+            for w in widths:
+                t = long_text(kind, w)
+                big.append(dict(op="wasplit", f=[(t, dict(PALETTE[1]))], columns=columns))
+                if kind in ("narrow", "mixed") or ctx.thorough:
+                    k = min(len(t), columns)
+                    big.append(dict(op="wasplit", f=[(t[:k], dict(PALETTE[1])), (t[k:], dict(PALETTE[2]))], columns=columns))
+                    big.append(dict(op="wasplit", f=[(t[:k - 1], dict(PALETTE[2])), ("", dict(PALETTE[3])), (t[k - 1:], dict(PALETTE[1]))],
+                                    columns=columns))
+    for w in ((HUGE - 1, HUGE, HUGE + 1) if not ctx.thorough else (HUGE - 1, HUGE, HUGE + 1, 2 * HUGE + 3)):
+        big.append(dict(op="wasplit", f=[(long_text("narrow", w), dict(PALETTE[1]))], columns=HUGE))
+    if ctx.thorough:
+        big.append(dict(op="wasplit", f=[(long_text("mixed", HUGE + 2), dict(PALETTE[1]))], columns=HUGE))
+    ctx.exhaustive.append("C11: %d cases with column counts 255..1000 and 65537 on long texts" % len(big))
+    cases += big
     cases += pre
     inter = []
     bases = []
@@ -373,6 +395,7 @@ def nontrivial(c):
 
 
 def check(ctx):
+    limit_memory()
     self_check(ctx)
     cases, extra = mk_cases(ctx)
     tagged = [(c, "columns=%d" % c["columns"]) for c in cases] + [(c, "extra-" + c["op"]) for c in extra]
